@@ -115,6 +115,24 @@ struct meth<P, shape<Cs...>, S, K> {
     using type = y2::method<key<S, K>, int(typename ptype<Cs, P>::type...), P>;
 };
 
+} // namespace vf
+
+// Instance 2 of every shape dispatches through static offsets (the arrays are
+// filled at run time, from the installed values or from the generator's text).
+namespace yorel {
+namespace yomm2 {
+namespace detail {
+template<int S, class Sig, class P>
+struct static_offsets<method<vf::key<S, 2>, Sig, P>> {
+    static inline std::size_t slots[vf::MAXAR];
+    static inline std::size_t strides[vf::MAXAR];
+};
+} // namespace detail
+} // namespace yomm2
+} // namespace yorel
+
+namespace vf {
+
 // ---------------------------------------------------------------------------
 // observation of arguments inside definition bodies
 
@@ -458,6 +476,8 @@ struct MethodOps {
     method_info* info;
     std::size_t* slots_strides;
     void* body[MAXDEF];
+    std::size_t* static_slots = nullptr;
+    std::size_t* static_strides = nullptr;
     int (*invoke)(CallCtx&, const std::uintptr_t* const* expect_vptr);
     void* (*resolve)(CallCtx&);
 };
@@ -471,7 +491,7 @@ struct invoker<P, M, shape<Cs...>, std::index_sequence<Is...>> {
         H hs(c);
         if (expect_vptr)
             for (std::size_t i = 0; i < sizeof...(Cs); ++i)
-                if (c.has_vptr[i] && c.vptr_seen[i] != expect_vptr[i])
+                if (c.has_vptr[i] && (c.vptr_seen[i] != expect_vptr[i] || c.vptr_seen[i] == nullptr))
                     throw BadVptr{(int)i};
         return M::fn(static_cast<holder<Cs, P, Is>&>(hs).get()...);
     }
@@ -499,6 +519,10 @@ MethodOps make_ops() {
     fill_bodies<M>(o.body, std::make_integer_sequence<int, MAXDEF>());
     o.invoke = &Inv::invoke;
     o.resolve = &Inv::resolve;
+    if constexpr (y2::detail::has_static_offsets<M>::value) {
+        o.static_slots = y2::detail::static_offsets<M>::slots;
+        o.static_strides = y2::detail::static_offsets<M>::strides;
+    }
     return o;
 }
 
@@ -537,6 +561,113 @@ template<class T, class = void>
 struct has_call_error_member : std::false_type {};
 template<class T>
 struct has_call_error_member<T, std::void_t<decltype(T::call_error = nullptr)>> : std::true_type {};
+
+// ---------------------------------------------------------------------------
+// checked-iterator proxies for decode_dispatch_data<Policy, Data> (C13): one
+// byte buffer models the emitted structure; every dereference is bounds checked
+// per array, and a store into the decoded v-tables must never clobber an
+// encoded code that has not been fetched yet.
+
+struct DecodeMonitor {
+    char* base = nullptr;
+    size_t enc_slots_off = 0, enc_slots_end = 0, enc_vtbls_off = 0, enc_vtbls_end = 0;
+    size_t dec_end = 0, dtbl_off = 0, dtbl_end = 0;
+    size_t enc_read_pos = 0; // offset of the next encoded v-table code not yet fetched
+    std::string error;
+    std::uintptr_t dummy = 0;
+    void fail(const std::string& e) {
+        if (error.empty())
+            error = e;
+    }
+};
+
+enum { REG_ENC_SLOTS, REG_ENC_VTBLS, REG_DEC_VTBLS, REG_DTBLS };
+
+template<class T, int Region>
+struct ChkIter {
+    using iterator_category = std::input_iterator_tag;
+    using value_type = T;
+    using difference_type = std::ptrdiff_t;
+    using pointer = T*;
+    using reference = T&;
+    DecodeMonitor* mon = nullptr;
+    T* p = nullptr;
+
+    T& operator*() const {
+        size_t off = reinterpret_cast<char*>(p) - mon->base;
+        bool under = reinterpret_cast<char*>(p) < mon->base;
+        size_t lo, hi;
+        const char* name;
+        switch (Region) {
+        case REG_ENC_SLOTS:
+            lo = mon->enc_slots_off, hi = mon->enc_slots_end, name = "encoded.slots";
+            break;
+        case REG_ENC_VTBLS:
+            lo = mon->enc_vtbls_off, hi = mon->enc_vtbls_end, name = "encoded.vtbls";
+            break;
+        case REG_DEC_VTBLS:
+            lo = 0, hi = mon->dec_end, name = "vtbls";
+            break;
+        default:
+            lo = mon->dtbl_off, hi = mon->dtbl_end, name = "dtbls";
+            break;
+        }
+        if (under || off < lo || off + sizeof(T) > hi) {
+            mon->fail(std::string("out-of-bounds-access-to-") + name);
+            return *reinterpret_cast<T*>(&mon->dummy);
+        }
+        if (Region == REG_ENC_VTBLS) {
+            if (off + sizeof(T) > mon->enc_read_pos)
+                mon->enc_read_pos = off + sizeof(T);
+        }
+        if (Region == REG_DEC_VTBLS) {
+            // the cell about to be written must not cover unread encoded codes
+            if (off < mon->enc_vtbls_end && off + sizeof(T) > mon->enc_read_pos && mon->enc_read_pos < mon->enc_vtbls_end)
+                mon->fail("decoded-cell-overwrites-unread-code");
+        }
+        return *p;
+    }
+    ChkIter& operator++() {
+        ++p;
+        return *this;
+    }
+    ChkIter operator++(int) {
+        ChkIter t = *this;
+        ++p;
+        return t;
+    }
+    ChkIter& operator+=(std::ptrdiff_t n) {
+        p += n;
+        return *this;
+    }
+    ChkIter operator+(std::ptrdiff_t n) const {
+        return ChkIter{mon, p + n};
+    }
+    ChkIter operator-(std::ptrdiff_t n) const {
+        return ChkIter{mon, p - n};
+    }
+    operator T*() const {
+        return p;
+    }
+    explicit operator char*() const {
+        return reinterpret_cast<char*>(p);
+    }
+    bool operator==(const ChkIter& o) const {
+        return p == o.p;
+    }
+    bool operator!=(const ChkIter& o) const {
+        return p != o.p;
+    }
+};
+
+struct ProxyData {
+    struct {
+        ChkIter<uint16_t, REG_ENC_SLOTS> slots;
+        ChkIter<uint16_t, REG_ENC_VTBLS> vtbls;
+    } encoded;
+    ChkIter<std::uintptr_t, REG_DEC_VTBLS> vtbls;
+    ChkIter<std::uintptr_t, REG_DTBLS> dtbls;
+};
 
 // a re-used class_info stands for a freshly constructed registration object
 template<class CI>
@@ -882,6 +1013,8 @@ struct World : IWorld {
             res.compiler = c;
         });
         res.ok = res.err.kind == Outcome::RAN;
+        if (res.ok)
+            sync_static_offsets();
         return res;
     }
 
@@ -1139,6 +1272,86 @@ struct World : IWorld {
         Outcome out;
         guarded(out, [&] { vptr = lookup_vptr(id); });
         return out;
+    }
+
+    bool has_static_offsets(const Registry& r, int m) override {
+        return op(r, m).static_slots != nullptr;
+    }
+    void set_static_offsets(const Registry& r, int m, const std::vector<size_t>& slots, const std::vector<size_t>& strides) override {
+        auto& o = op(r, m);
+        for (size_t i = 0; i < slots.size() && i < (size_t)MAXAR; ++i)
+            o.static_slots[i] = slots[i];
+        for (size_t i = 0; i < strides.size() && i < (size_t)MAXAR; ++i)
+            o.static_strides[i] = strides[i];
+    }
+    void sync_static_offsets() override {
+        for (auto& o : ops)
+            if (o.static_slots) {
+                int ar = g_shapes[o.shape].arity;
+                for (int i = 0; i < ar; ++i)
+                    o.static_slots[i] = o.slots_strides[i];
+                for (int i = 0; i + 1 < ar; ++i)
+                    o.static_strides[i] = o.slots_strides[ar + i];
+            }
+    }
+
+    void forget_installed_tables(const Registry& r) override {
+        for (int c = 0; c < MAXC; ++c)
+            Store<P>::vptr_slots[c] = nullptr;
+        P::template static_vptr<Node> = nullptr;
+        P::template static_vptr<NodeD> = nullptr;
+        std::vector<std::uintptr_t>().swap(P::dispatch_data);
+        if constexpr (P::template has_facet<yp::external_vptr>)
+            decltype(P::vptrs)().swap(P::vptrs);
+        for (auto& o : ops)
+            for (int i = 0; i < 2 * g_shapes[o.shape].arity - 1; ++i)
+                o.slots_strides[i] = 0;
+        for (int u = 0; u < NSHAPES * NINST; ++u)
+            for (int d = 0; d < MAXDEF; ++d)
+                Store<P>::next_slot[u][d] = reinterpret_cast<void*>(0xdeadbeef);
+    }
+
+    std::vector<char> decode_buf;
+
+    std::string decode(const EncodedData& d) override {
+        DecodeMonitor mon;
+        size_t enc_bytes = 2 * (d.headroom + d.nslots + d.nvtbls);
+        size_t dec_bytes = 8 * d.ndecoded;
+        size_t union_bytes = std::max(enc_bytes, dec_bytes);
+        union_bytes = (union_bytes + 7) & ~size_t(7);
+        size_t total = union_bytes + 8 * d.ndtbls;
+        decode_buf.assign(total + 64, (char)0xCD);
+        char* base = decode_buf.data() + 32 - (reinterpret_cast<uintptr_t>(decode_buf.data()) & 7) % 8;
+        base += (8 - (reinterpret_cast<uintptr_t>(base) & 7)) & 7;
+        memset(base, 0, total);
+        mon.base = base;
+        mon.enc_slots_off = 2 * d.headroom;
+        mon.enc_slots_end = mon.enc_slots_off + 2 * d.nslots;
+        mon.enc_vtbls_off = mon.enc_slots_end;
+        mon.enc_vtbls_end = mon.enc_vtbls_off + 2 * d.nvtbls;
+        mon.dec_end = dec_bytes;
+        mon.dtbl_off = union_bytes;
+        mon.dtbl_end = union_bytes + 8 * d.ndtbls;
+        mon.enc_read_pos = mon.enc_vtbls_off;
+        if (d.slots.size() > d.nslots || d.vtbls.size() > d.nvtbls || d.dtbls.size() > d.ndtbls)
+            return "initialiser-longer-than-array";
+        if (!d.slots.empty())
+            memcpy(base + mon.enc_slots_off, d.slots.data(), 2 * d.slots.size());
+        if (!d.vtbls.empty())
+            memcpy(base + mon.enc_vtbls_off, d.vtbls.data(), 2 * d.vtbls.size());
+        if (!d.dtbls.empty())
+            memcpy(base + mon.dtbl_off, d.dtbls.data(), 8 * d.dtbls.size());
+        ProxyData pd;
+        pd.encoded.slots = {&mon, reinterpret_cast<uint16_t*>(base + mon.enc_slots_off)};
+        pd.encoded.vtbls = {&mon, reinterpret_cast<uint16_t*>(base + mon.enc_vtbls_off)};
+        pd.vtbls = {&mon, reinterpret_cast<std::uintptr_t*>(base)};
+        pd.dtbls = {&mon, reinterpret_cast<std::uintptr_t*>(base + mon.dtbl_off)};
+        Outcome out;
+        guarded(out, [&] { y2::decode_dispatch_data<P>(pd); });
+        if (out.kind != Outcome::RAN)
+            return "decoder-reported-" + out.str();
+        sync_static_offsets();
+        return mon.error;
     }
 
     std::string write_static_offsets() override {
